@@ -1094,6 +1094,35 @@ def membership_scans(run: Run, rule: str, table: Sequence[Tuple[str, str, Option
     run.sites(n, len(table), "membership scans")
 
 
+def bitmap_positions(run: Run, rule: str, rel: str, floor: int = 1) -> None:
+    """K6: every position reconstructed from a bit scan of a SlotBitmap word (`countr_zero` / `countl_zero`) is `word_index * SlotBitmap::bits_per_word + bit`.
+    With any other multiplier (sizeof(word) = 8, a literal) the first word still maps correctly and every position >= 64 aliases a low one."""
+    fi = run.tree.file(rel)
+    n = 0
+    for fd in fi.funcs:
+        if fd.body is None or "countr_zero" not in fi.text(fd.body[0], fd.body[1]) and "countl_zero" not in fi.text(fd.body[0], fd.body[1]):
+            continue
+        if any(o is not fd and o.body is not None and o.body[0] > fd.body[0] and o.body[1] < fd.body[1] and
+               ("countr_zero" in fi.text(o.body[0], o.body[1]) or "countl_zero" in fi.text(o.body[0], o.body[1])) for o in fi.funcs):
+            continue
+        fa = parse(run, fd, strict=False)
+        cn = aliases_of(fa)
+        sub = const_locals(fa, cn)
+        bits = {d.name for d in find(fa, lambda x: isinstance(x, C.Declarator) and x.init is not None and re.search(r"count[lr]_zero", cn(x.init)))}
+        for e in find(fa, lambda x: isinstance(x, C.Binary) and x.op == "+"):
+            l, r = cn(e.l).replace(" ", ""), cn(e.r).replace(" ", "")
+            for a, b in ((l, r), (r, l)):
+                if b in bits and "*" in a and re.search(r"word", a):
+                    n += 1
+                    run.count(1, rule + ".pos")
+                    fac = [x for x in re.split(r"\*", a.strip("()")) if not re.fullmatch(r"\(?\w*word\w*\)?", x)]
+                    if [sub(x) for x in fac] != ["SlotBitmap::bits_per_word"] and fac != ["SlotBitmap::bits_per_word"]:
+                        run.finding(rule, f"{fd.name}:bitmap-position-multiplier:{'*'.join(fac)[:40]}", f"{fd.qual}: a bit position is reconstructed as `{a} + {b}`; the word "
+                                    "index must be multiplied by SlotBitmap::bits_per_word (64): with another factor every position in the second and later bitmap words "
+                                    "maps onto a low slot (children in slots >= 64 are never visited, low ones twice)", loc=fa.loc(e))
+    run.sites(n, floor, f"bitmap positions in {rel}")
+
+
 def share(run: Run, rule: str, module, src_rules: Sequence[str], prefix: bool = False) -> None:
     """Re-evaluate rule instances that belong to another property under `rule` of this property (the same function is looked at by
     several properties; each attributes a break to itself).  Runs the other module's check in a quiet sub-run and copies the findings
